@@ -44,14 +44,19 @@ type FlagRead struct {
 
 // Cmd is a cobra command held in a package-level variable.
 type Cmd struct {
-	Var      string
-	Global   *ssa.Global
-	Use      string
-	Version  bool // Version field set (cobra adds --version)
-	Run      *ssa.Function
-	Parent   string
-	Children []string
-	Flags    []Flag
+	Var     string
+	Global  *ssa.Global
+	Use     string
+	Version bool // Version field set (cobra adds --version)
+	Run     *ssa.Function
+	// ArgsLo/ArgsHi: the positional-argument count cobra enforces before Run
+	// (Args: cobra.ExactArgs(n), MinimumNArgs(n), ...); ArgsHi < 0 = no
+	// upper limit. ArgsSet tells whether an Args validator was recognised.
+	ArgsLo, ArgsHi int
+	ArgsSet        bool
+	Parent         string
+	Children       []string
+	Flags          []Flag
 }
 
 // Tree is the command tree of package cli.
@@ -60,7 +65,7 @@ type Tree struct {
 	Reads []FlagRead
 	// Delegates maps a command variable to the commands whose Run it invokes
 	// (rootCmd.Run calls searchCmd.Run).
-	Delegates map[string][]string
+	Delegates  map[string][]string
 	Unresolved []string
 }
 
@@ -264,6 +269,35 @@ func fillCmd(c *Cmd, al *ssa.Alloc) {
 				c.Use, _ = ssau.ConstString(st.Val)
 			case "Version":
 				c.Version = true
+			case "Args":
+				if call, ok := st.Val.(*ssa.Call); ok {
+					n := func(i int) int {
+						if i < len(call.Common().Args) {
+							if v, ok := ssau.ConstInt(call.Common().Args[i]); ok {
+								return int(v)
+							}
+						}
+						return -1
+					}
+					switch ssau.CallName(call) {
+					case "github.com/spf13/cobra.ExactArgs":
+						if k := n(0); k >= 0 {
+							c.ArgsLo, c.ArgsHi, c.ArgsSet = k, k, true
+						}
+					case "github.com/spf13/cobra.MinimumNArgs":
+						if k := n(0); k >= 0 {
+							c.ArgsLo, c.ArgsHi, c.ArgsSet = k, -1, true
+						}
+					case "github.com/spf13/cobra.MaximumNArgs":
+						if k := n(0); k >= 0 {
+							c.ArgsLo, c.ArgsHi, c.ArgsSet = 0, k, true
+						}
+					case "github.com/spf13/cobra.RangeArgs":
+						if a, b := n(0), n(1); a >= 0 && b >= a {
+							c.ArgsLo, c.ArgsHi, c.ArgsSet = a, b, true
+						}
+					}
+				}
 			case "Run":
 				switch f := st.Val.(type) {
 				case *ssa.Function:
